@@ -406,6 +406,17 @@ func (x *Exec) claimPaid(n *node.Node) bool {
 // CSV is the CSV of the configuration's chain (protocol 7).
 func (x *Exec) CSV() uint32 { return x.csv() }
 
+// RebootA starts a new incarnation of node A (the old one must be dead);
+// recover=false leaves RecoverSwaps to a later step (the daemons call Start
+// and accept messages before RecoverSwaps).
+func (x *Exec) RebootA(recover bool) {
+	x.incA++
+	x.A = node.Boot(x.W, x.nodeCfg(IDA), x.DA, x.incA)
+	if recover {
+		x.A.Recover()
+	}
+}
+
 // Silence makes the peer silent: everything queued in either direction is dropped.
 func (x *Exec) Silence() {
 	x.netMu.Lock()
